@@ -41,7 +41,7 @@ CHECKS["C01"] = {
                    "are not split further. Power-loss reordering is out of scope. Torn (short) writes are not generated in this check."),
     "assumptions": ["crash = process death, not power loss", "tmpfs scratch directory", "rollup bookkeeping crash points are covered by C04's machinery, not here"],
     "tests": [
-        {"name": "TestCrashRecovery", "quick": 60, "thorough": {"checks": 150, "shards": 16}},
+        {"name": "TestCrashRecovery", "quick": 40, "thorough": {"checks": 150, "shards": 16}},
     ],
 }
 
@@ -105,7 +105,7 @@ CHECKS["C05"] = {
     "level_note": "Process-crash model for MAP_SHARED pages (stores survive in program order). Overlap is driven through a goroutine with a 3 ms rendezvous window, so the schedule of that action is best-effort deterministic; the oracle does not depend on it.",
     "assumptions": ["messages are >= 8 bytes (self-describing id)", "data page size is the 128 MiB constant", "crash = process death"],
     "tests": [
-        {"name": "TestQueueHistory", "quick": 100, "thorough": {"checks": 400, "shards": 14}},
+        {"name": "TestQueueHistory", "quick": 60, "thorough": {"checks": 400, "shards": 14}},
         {"name": "TestRollOver", "quick": 2, "thorough": {"checks": 10, "shards": 2}},
         {"name": "TestConcurrentAppenders", "quick": {}, "thorough": {"race": True}},
     ],
